@@ -345,7 +345,7 @@ func runProperty() int {
 			"exhaustive": true,
 			"load_s":     p.LoadSecs,
 		},
-		Assumptions: ps.Assumptions,
+		Assumptions: append([]string{"the analysed program is /repo's working tree under the default build tags; test files and test-helper packages (mock, helpers, testutils, factory) are not production code", "structural rules decide necessary conditions of the property, not the property's behaviour"}, ps.Assumptions...),
 		WallS:       time.Since(t0).Seconds(),
 		Violations:  nViol,
 	}
